@@ -744,3 +744,97 @@ def type_tables(jobs):
             rows[str(i)] = rec
         out.append({"id": job["id"], "rows": rows})
     return out
+
+
+# ---------------------------------------------------------------------------
+# C14: types passed as arguments
+# ---------------------------------------------------------------------------
+def typearg_cases(jobs):
+    """job = {id, world:{elbase, elements, parents, methods}, calls}: node ids
+    index `elements`; node 1 = plain object annotation; elements with
+    k in cls/gen/any are type objects (annotation type[...], argument = the
+    object itself), k = inst are ordinary classes (argument = an instance)."""
+    import linecache
+    import typing
+
+    from ovld import Ovld
+
+    from .observe import classify, describe
+
+    out = []
+    for job in jobs:
+        w = job["world"]
+        base = _mk_classes(w["elbase"])
+        builtin = w.get("elbuiltin", {})
+        for k, name in builtin.items():
+            base[int(k)] = {"list": list, "dict": dict, "str": str, "int": int, "tuple": tuple}[name]
+
+        def real(e):
+            if e["k"] == "cls":
+                return base[e["c"]]
+            if e["k"] == "any":
+                return typing.Any
+            if e["k"] == "gen":
+                return base[e["o"]][tuple(real(a) for a in e["args"])]
+            if e["k"] == "inst":
+                return base[e["c"]]
+            raise ValueError(e)
+
+        els = w["elements"]
+        ns = {"LOG": [], "typing": typing}
+        objs = {}
+        for n, e in enumerate(els, start=1):
+            if n == 1:
+                continue
+            objs[n] = real(e)
+            ns[f"E{n}"] = objs[n]
+        src = []
+        for m in w["methods"]:
+            params = []
+            for i, t in enumerate(m["pos"]):
+                n = t["c"]
+                if n == 1:
+                    ann = "object"
+                elif els[n - 1]["k"] == "inst":
+                    ann = f"E{n}"
+                elif m.get("bare") and els[n - 1] == {"k": "cls", "c": 1}:
+                    ann = "type"
+                else:
+                    ann = f"type[E{n}]"
+                params.append(f"p{i + 1}: {ann}")
+            src.append(f"def {m['id']}({', '.join(params)}):\n    LOG.append({m['id']!r})\n    return {m['id']!r}\n")
+        code = "\n".join(src)
+        fname = f"<vf:ta{job['id']}>"
+        linecache.cache[fname] = (len(code), None, code.splitlines(True), fname)
+        exec(compile(code, fname, "exec"), ns, ns)
+        ov = Ovld()
+        for m in sorted(w["methods"], key=lambda m: m["reg"]):
+            ov.register(ns[m["id"]], priority=m["prio"])
+        steps = []
+        for call in job["calls"]:
+            args = []
+            for a in call["pos"]:
+                n = a["c"]
+                if a.get("any"):
+                    args.append(typing.Any)
+                elif n == 1:
+                    args.append(object())
+                elif els[n - 1]["k"] == "inst":
+                    args.append(objs[n]())
+                else:
+                    args.append(objs[n])
+            del ns["LOG"][:]
+            obs = {"resolve": {"kind": "skip", "m": ""}}
+            try:
+                ov(*args)
+                obs["kind"] = "run"
+            except BaseException as e:  # noqa
+                obs["kind"] = classify(e)
+                obs["err"] = describe(e)
+                e.__traceback__ = None
+            obs["entered"] = [{"m": mid, "call": call, "next": {"has": False, "call": {"pos": [], "kwn": [], "kwa": []}}} for mid in ns["LOG"]]
+            steps.append({"call": call, "obs": obs})
+        for k in [k for k in linecache.cache if k.startswith("<ovld:") or k.startswith("<vf:")]:
+            del linecache.cache[k]
+        out.append({"id": job["id"], "props": ["C14"], "world": w, "steps": steps})
+    return out
